@@ -224,8 +224,10 @@ func (m *Manager) registerConnection(conn *Connection) {
 func (m *Manager) handleDisconnect(conn *Connection, err error) {
 	m.mu.Lock()
 	// Remove from peers map if this is still the active connection
+	removed := false
 	if existing, ok := m.peers[conn.RemoteID]; ok && existing == conn {
 		delete(m.peers, conn.RemoteID)
+		removed = true
 	}
 
 	// Find the peer info using the config address (original dial address).
@@ -238,8 +240,12 @@ func (m *Manager) handleDisconnect(conn *Connection, err error) {
 	}
 	m.mu.Unlock()
 
-	// Notify callback
-	if m.cfg.OnPeerDisconnect != nil {
+	// Notify callback only for the connection that was registered. Both the
+	// read loop and the keepalive loop report the same connection, and a stale
+	// connection may report after the peer has reconnected: the callback
+	// cleans up routes and relays by peer ID, so a second or stale
+	// notification would tear down state that belongs to the live connection.
+	if removed && m.cfg.OnPeerDisconnect != nil {
 		m.cfg.OnPeerDisconnect(conn, err)
 	}
 
@@ -456,7 +462,13 @@ func (m *Manager) Disconnect(id identity.AgentID) error {
 		return fmt.Errorf("peer not found: %s", id.String())
 	}
 
-	return conn.Close()
+	// The connection was unregistered above, so its read loop no longer
+	// reports the disconnect: notify here.
+	err := conn.Close()
+	if m.cfg.OnPeerDisconnect != nil {
+		m.cfg.OnPeerDisconnect(conn, err)
+	}
+	return err
 }
 
 // Close shuts down the manager and all connections.
@@ -535,11 +547,16 @@ func (m *Manager) DisconnectAll() error {
 	// Stop reconnector temporarily to prevent immediate reconnection
 	m.reconnector.Pause()
 
-	// Close all connections
+	// Close all connections. They were unregistered above, so their read
+	// loops no longer report the disconnect: notify here, once per connection.
 	var lastErr error
 	for _, conn := range conns {
-		if err := conn.Close(); err != nil {
+		err := conn.Close()
+		if err != nil {
 			lastErr = err
+		}
+		if m.cfg.OnPeerDisconnect != nil {
+			m.cfg.OnPeerDisconnect(conn, err)
 		}
 	}
 
